@@ -152,9 +152,28 @@ class Fn:
     __repr__ = __str__
 
 
+class RefCV:
+    """stand-in (reference side) for simpleTALES.ContextVariable: a wrapper whose value() calls the
+    wrapped object when it is callable; never callable itself"""
+
+    def __init__(self, v):
+        self.ourValue = v
+
+    def value(self):
+        return self.ourValue() if hasattr(self.ourValue, "__call__") else self.ourValue
+
+    def rawValue(self):
+        return self.ourValue
+
+
+CV_FACTORY = [RefCV]        # the implementation side puts simpleTALES.ContextVariable here
+
+
 def build_value(spec, counter=None):
     counter = counter if counter is not None else [0]
     k = spec[0]
+    if k == "cv":
+        return CV_FACTORY[0](build_value(spec[1], counter))
     if k == "s":
         return spec[1]
     if k == "n":
@@ -207,7 +226,7 @@ def gen_value(rng, depth=0, hostile=True, kinds=None):
     raise ValueError(k)
 
 
-CTX_NAMES = ["s1", "s2", "n1", "l1", "l2", "e1", "d1", "d2", "z1", "f1", "t1", "v1", "v2", "m1", "m2"]
+CTX_NAMES = ["s1", "s2", "n1", "l1", "l2", "e1", "d1", "d2", "z1", "f1", "t1", "v1", "v2", "m1", "m2", "f2", "d3", "cv1", "cv2"]
 ITEM_KEYS = ["k", "name", "label"]
 
 
@@ -237,8 +256,20 @@ CTX_KINDS = {"s1": ["s"], "s2": ["s"], "n1": ["n"], "l1": ["l"], "l2": ["l"], "e
 
 def gen_context(rng, hostile=True):
     ctx = {}
+    def mapping():
+        pairs = [[key, rng.choice([["s", gen_string(rng, hostile)], ["n", rng.choice([0, 3])], ["z"], ["s", ""],
+                                   ["l", [["s", gen_string(rng, hostile)], ["s", "b"]]]])] for key in ITEM_KEYS]
+        return ["d", pairs]
     for name in CTX_NAMES:
-        if name in ("m1", "m2"):
+        if name == "f2":          # a function that returns a mapping: exists:/nocall: must call it on the way down
+            ctx[name] = ["c", mapping()]
+        elif name == "d3":        # a mapping whose member is such a function
+            ctx[name] = ["d", [["fn", ["c", mapping()]], ["k", ["s", gen_string(rng, hostile)]], ["seq", ["c", gen_items(rng, hostile, 1)]]]]
+        elif name == "cv1":       # ContextVariable around a plain value
+            ctx[name] = ["cv", rng.choice([["s", gen_string(rng, hostile)], mapping(), ["z"]])]
+        elif name == "cv2":       # ContextVariable around a function
+            ctx[name] = ["cv", ["c", mapping()]]
+        elif name in ("m1", "m2"):
             if rng.random() < 0.9:
                 ctx[name] = gen_items(rng, hostile)
         elif rng.random() < 0.8:
@@ -264,8 +295,8 @@ def vary_strings(rng, spec, hostile=True):
         return ["l", [vary_strings(rng, x, hostile) for x in spec[1]]]
     if k == "d":
         return ["d", [[a, vary_strings(rng, b, hostile)] for a, b in spec[1]]]
-    if k == "c":
-        return ["c", vary_strings(rng, spec[1], hostile)]
+    if k in ("c", "cv"):
+        return [k, vary_strings(rng, spec[1], hostile)]
     return spec
 
 
@@ -277,8 +308,8 @@ def benign_strings(spec):
         return ["l", [benign_strings(x) for x in spec[1]]]
     if k == "d":
         return ["d", [[a, benign_strings(b)] for a, b in spec[1]]]
-    if k == "c":
-        return ["c", benign_strings(spec[1])]
+    if k in ("c", "cv"):
+        return [k, benign_strings(spec[1])]
     return spec
 
 
@@ -327,6 +358,9 @@ def gen_path(rng, sc, want=None, norep=False):
         return "attrs/" + rng.choice(ATTR_NAMES)
     if r < 0.47:
         return rng.choice(["?k1", "d1/?k2", "l1/?k2", "d2/?k2"])
+    if r < 0.58:
+        # through callables / ContextVariables on the way down
+        return rng.choice(["f2", "d3/fn", "cv2", "cv1", "d3/seq/0"]) + "/" + rng.choice(ITEM_KEYS + ["nope", "label/0"])
     p = rng.choice(names)
     if rng.random() < 0.45:
         p += "/" + rng.choice(["k", "name", "label", "0", "1", "x", "sub", "n0", "url", "2", "-1"])
@@ -598,6 +632,98 @@ def dedupe_slots(nodes, seen=None):
             dedupe_slots(n.children, seen)
 
 
+# ----------------------------------------------------------------------------
+# scenarios: small interaction patterns placed among the random elements.  Each one combines two
+# features whose interplay needs state to be kept or restored correctly (scopes, repeat maps, callables
+# on the way down a path); the concrete expressions and names are drawn at random.
+# ----------------------------------------------------------------------------
+def _probe(rng, expr_pool):
+    """an element that shows the value of an expression (content, replace, attribute, condition or string)"""
+    ex = rng.choice(expr_pool)
+    k = rng.random()
+    if k < 0.35:
+        return Elem("b", tal={"content": ex}, children=[Text("-")])
+    if k < 0.5:
+        return Elem("b", tal={"replace": ex + " | string:(none)" if "|" not in ex and ":" not in ex else ex}, children=[Text("-")])
+    if k < 0.65:
+        return Elem("i", attrs=[("title", "t")], tal={"attributes": "title " + ex.replace(";", ";;")}, children=[Text("a")])
+    if k < 0.8:
+        return Elem("u", tal={"condition": ex}, children=[Text("yes")])
+    return Elem("s", tal={"content": "string:[${%s}]" % ex if "}" not in ex else ex}, children=[Text("-")])
+
+
+def gen_scenario(rng, opts, sc):
+    kind = rng.choice(["callable-path", "same-name-loops", "shadow", "after-loop", "global-in-loop", "false-cond-define",
+                       "nested-loops", "indirect"] + (["macro-in-loop"] if (opts.metal and sc.macros) else []))
+    key = rng.choice(ITEM_KEYS)
+    seq, seq2 = rng.choice([("m1", "m2"), ("m2", "m1"), ("l1", "m1"), ("m1", "l2"), ("d3/seq", "m1")])
+    var = rng.choice(["i", "j", "it", "row"])
+    if kind == "callable-path":
+        base = rng.choice(["f2", "d3/fn", "cv2", "cv1", "f1", "d3/seq/0", "d1/x"])
+        pool = ["exists:%s/%s" % (base, key), "nocall:%s/%s" % (base, key), "not:exists:%s/%s" % (base, key),
+                "%s/%s" % (base, key), "exists:%s/nope" % base, "nocall:%s/%s | string:fallback" % (base, key),
+                "not:nocall:%s/%s" % (base, key)]
+        nodes = [_probe(rng, pool) for _ in range(rng.choice([1, 2, 3]))]
+        if rng.random() < 0.4:
+            nodes.append(Elem("ul", tal={"repeat": "%s nocall:%s/%s" % (var, base, key)}, children=[Elem("li", tal={"content": var}, children=[Text("x")])]))
+        if rng.random() < 0.4:
+            nodes.append(Elem("p", tal={"define": "v1 nocall:%s/%s; v2 exists:%s/%s" % (base, key, base, key)},
+                              children=[_probe(rng, ["v1", "v2", "not:v1", "v1/0 | v2"])]))
+        return nodes
+    rv = ["repeat/%s/%s" % (var, a) for a in ("number", "index", "letter", "end", "start", "even", "length", "Roman")]
+    if kind == "same-name-loops":
+        inner = Elem("li", tal={"repeat": "%s %s" % (var, seq2)}, children=[_probe(rng, rv + ["%s/%s | default" % (var, key)])])
+        after = [_probe(rng, rv + ["not:repeat/%s/end" % var, "exists:repeat/%s" % var, "string:${repeat/%s/number}." % var,
+                                   "%s/%s | string:outer" % (var, key)]) for _ in range(rng.choice([1, 2]))]
+        kids = [inner] + after
+        if rng.random() < 0.3:
+            kids.insert(0, _probe(rng, rv))
+        return [Elem("ul", tal={"repeat": "%s %s" % (var, seq)}, children=kids)]
+    if kind == "nested-loops":
+        var2 = rng.choice([v for v in ["i", "j", "it", "row"] if v != var])
+        rv2 = ["repeat/%s/%s" % (var2, a) for a in ("number", "end", "letter")]
+        inner = Elem("li", tal={"repeat": "%s %s" % (var2, rng.choice([seq2, var, "%s/%s" % (var, key)]))},
+                     children=[_probe(rng, rv + rv2 + ["string:${repeat/%s/number}.${repeat/%s/number}" % (var, var2)])])
+        return [Elem("ol", tal={"repeat": "%s %s" % (var, seq)}, children=[inner, _probe(rng, rv + ["exists:repeat/%s" % var2, "%s | string:gone" % var2])])]
+    if kind == "shadow":
+        name = rng.choice(["x", "y", "v1", "s1", "loc"])
+        outer_kind = rng.choice(["", "local ", "global "])
+        mid = Elem("p", tal={"define": "%s %s" % (name, rng.choice(["s2", "string:inner", "l1", "nothing"]))},
+                   children=[_probe(rng, [name, "not:" + name])])
+        if rng.random() < 0.5:
+            mid.tal["condition"] = rng.choice(["nope", "not:s1 | nothing", "e1", "string:"])
+        return [Elem("div", tal={"define": "%s%s %s" % (outer_kind, name, rng.choice(["s1", "string:outer", "n1"]))},
+                     children=[mid, _probe(rng, [name, "%s | string:undefined" % name])]),
+                _probe(rng, ["%s | string:undefined" % name, "exists:" + name])]
+    if kind == "after-loop":
+        return [Elem("p", tal={"repeat": "%s %s" % (var, seq)}, children=[_probe(rng, rv + [var + "/" + key + " | default"])]),
+                _probe(rng, ["%s | string:gone" % var, "exists:repeat/%s" % var, "exists:%s" % var, "repeat/%s/number | string:none" % var])]
+    if kind == "global-in-loop":
+        name = rng.choice(["g1", "g2", "x"])
+        return [Elem("p", tal={"repeat": "%s %s" % (var, seq), "define": "global %s %s" % (name, rng.choice(["s1", "string:G", "n1"]))},
+                     children=[Elem("b", tal={"define": "global %s %s" % (name, rng.choice([var, "repeat/%s/number" % var, "%s/%s | %s" % (var, key, name)]))},
+                                    children=[_probe(rng, [name])])]),
+                _probe(rng, [name, "%s | string:undefined" % name])]
+    if kind == "false-cond-define":
+        name = rng.choice(["x", "y", "loc", "v2"])
+        return [Elem("div", tal={"define": "%s string:outer" % name},
+                     children=[Elem("p", tal={"define": "%s%s string:inner; %s s2" % (rng.choice(["", "local "]), name, rng.choice(["y", "loc", "v1"])),
+                                              "condition": rng.choice(["nope", "nothing", "e1", "not:s1 | nothing", "string:"])},
+                                    children=[Text("hidden")]),
+                               _probe(rng, [name, "y | string:no-y", "loc | string:no-loc"])]),
+                _probe(rng, ["%s | string:undefined" % name])]
+    if kind == "indirect":
+        return [Elem("p", tal={"repeat": "%s %s" % (var, rng.choice(["l1", "m1"])), "define": "kk string:%s" % key},
+                     children=[_probe(rng, ["%s/?kk | default" % var, "?k1", "d1/?k2 | %s" % var, "f2/?kk"])])]
+    # macro-in-loop
+    m = rng.choice(sc.macros)
+    return [Elem("div", tal={"repeat": "%s %s" % (var, seq)},
+                 children=[Elem("span", metal={"use-macro": m},
+                                children=[Elem("em", metal={"fill-slot": rng.choice(["s", "t", "u"])},
+                                               children=[_probe(rng, rv + [var + "/" + key + " | default"])])]),
+                           _probe(rng, rv)])]
+
+
 def gen_template(rng, opts, libmacros=(), nmacros=None, ctx_names=None, macro_prefix="m", self_path="macros/"):
     """Returns (nodes, macro names).  Macros are defined first so that later macros can use
     earlier ones (acyclic); the main body can use all of them."""
@@ -625,6 +751,10 @@ def gen_template(rng, opts, libmacros=(), nmacros=None, ctx_names=None, macro_pr
             body.append(gen_text(rng))
         else:
             body.append(gen_element(rng, sc, opts, 1))
+    if getattr(opts, "scenarios", True) and opts.only is None:
+        for _ in range(rng.choice([0, 1, 1, 2])):
+            for n in gen_scenario(rng, opts, sc):
+                body.insert(rng.randrange(len(body) + 1), n)
     # macros may be placed before or after the body (use before definition is legal)
     if rng.random() < 0.5:
         nodes = macro_elems + body
